@@ -213,7 +213,7 @@ impl PrimitiveFixedWidthEncode for i64'''),
     ('c14_case_validity_again', 'C14', 'select_op·validity-from-selector-value', 'src/array/ops.rs',
      'let mut valid = s_true.and(a.get_valid_bitmap());\n    valid.or(&s_true.not_then_and(b.get_valid_bitmap()));',
      'let mut valid = s.get_valid_bitmap().and(a.get_valid_bitmap());\n    valid.or(&s.get_valid_bitmap().not_then_and(b.get_valid_bitmap()));'),
-    ('c14_cast_bool_keeps_raw_bits', 'C14', 'ArrayImpl::cast·clear_null', 'src/array/ops.rs',
+    ('c14_cast_bool_keeps_raw_bits', 'C14', 'clear_null', 'src/array/ops.rs',
      'Type::Bool => Self::new_bool(clear_null(unary_op(a.as_ref(), |&f| f != 0.0))),', 'Type::Bool => Self::new_bool(unary_op(a.as_ref(), |&f| f != 0.0)),'),
     ('c12_limit_counter_skipped', 'C12', 'LimitExecutor·counter-advances', 'src/executor/limit.rs',
      '''            processed += cardinality;
